@@ -31,3 +31,32 @@ PROPS["C01"] = Prop(
     nontrivial=lambda scen_line, impl: " n=0" not in scen_line and "tsize=0" not in scen_line,
 )
 PARAMS["C01"] = {"rule": "19 element layouts (sizes 0..64, aligns 1..64, padded tuples, packed, aligned ZSTs, nested GenericArrays) x the length lattice (quick) or every N in 0..=1025 plus every 2^k, 2^k-1, 10^k up to 2^62 for ZST and 2^60 for u8 (thorough). Distinct = distinct (type, N); non-trivial = N > 0 and size > 0."}
+
+OWN_TRUST = "modelled, not verified: Rust's unwinding (live locals dropped once, innermost frame first), slice drop glue continuing after a panicking element, core's Zip/Map/Enumerate/for_each/fold, alloc's Vec/vec::IntoIter ownership"
+
+
+def own_sig(l):
+    kv = dict(t.split("=", 1) for t in l.split() if "=" in t)
+    return "%s/%s/%s" % (kv.get("op"), kv.get("form", "") + kv.get("form2", ""), kv.get("fault", "none").split(":")[0])
+
+
+PROPS["C04"] = Prop(
+    "C04", ["GA.Props.C04"],
+    [Engine("own", scen.own_c04, sig=own_sig)],
+    trusted=[KERNEL, TRANSLATOR, HARNESS, OWN_TRUST],
+    assumptions=["element ids are distinct; caller code is a function of the call index (one injected panic per run)",
+                 "a second panic during unwinding aborts the process and is outside the property",
+                 "correspondence covers N in {0..8, 16, 17, 33}; the theorems cover every N and every panic index"],
+    nontrivial=lambda s, impl: "fault=none" not in s and "res=panicked" in impl,
+)
+PARAMS["C04"] = {"rule": "every operation (generate, default, map x4 forms, zip x10 forms, fold x4 forms, clone, iterator clone/fold/rfold from every (front, back), collect stack/boxed x try/panicking) x N in {0..8,16,17,33} x an injected panic at every call index (N <= 8; first/middle/last above) and the panic-free run. Distinct = distinct scenario lines; non-trivial = a panic was injected and propagated."}
+
+PROPS["C05"] = Prop(
+    "C05", ["GA.Props.C05"],
+    [Engine("own", scen.own_c05, sig=own_sig)],
+    trusted=[KERNEL, TRANSLATOR, HARNESS, OWN_TRUST],
+    assumptions=["exactly one element's destructor panics per run (a second panic while unwinding aborts the process)",
+                 "element ids are distinct", "elements abandoned by unwinding may leak (allowed by the property); the oracle only rejects a second drop"],
+    nontrivial=lambda s, impl: "fault=dtor" in s and "panicked" in impl,
+)
+PARAMS["C05"] = {"rule": "iterator nth / nth_back / last / count / drop from every reachable (front, back) for N <= 6 (thorough: 8), every skip count 0..=len+1, every choice of the element whose destructor panics (and none); boundary positions for N in {16,17,33}. Non-trivial = a destructor panicked."}
